@@ -39,7 +39,7 @@ def stepLine (s : St) (n : Nat) (ln : Line) : St × List String :=
   | "sorted" => ({ s with vol := reopenSorted s.vol, kind := "sorted" }, diff n ln ["ok"] ++ ["COV reset.sorted"])
   | "reload" =>
     -- a volume reopened as sorted stays sorted (.dat still not writable)
-    ({ s with vol := if s.kind == "sorted" then reopenSorted s.vol else reload s.kind s.vol, reloaded := true },
+    ({ s with vol := if s.kind == "sorted" then reopenSorted s.vol else c01Reload s.kind s.vol, reloaded := true },
      diff n ln ["ok"] ++ [s!"COV reload.{s.kind}"])
   | _ =>
     match opOfLine ln with
